@@ -25,9 +25,12 @@ pub fn exec(rec: &Value, _st: &mut State) -> Value {
             let o = gvi(rec, "o");
             let origin = Point2::new(o[0] as f64 * s, o[1] as f64 * s);
             let mut outs = vec![];
+            // nzd = 1: a zero direction component is handed over as -0.0 (what `-v`, reversed() or a half-turn make of it): the same line
+            let nzd = gi_or(rec, "nzd", 0) == 1;
+            let comp = |x: i64| -> f64 { if nzd && x == 0 { -0.0 } else { x as f64 } };
             for d in gvvi(rec, "dirs") {
                 // direction is used unscaled: the ray parameter is then in units of s
-                let dir = Vector2::new(d[0] as f64, d[1] as f64);
+                let dir = Vector2::new(comp(d[0]), comp(d[1]));
                 let ray = Ray::new(origin, dir);
                 let ints: Vec<Vec<i64>> = polyline_intersections(&line, &ray).iter().map(|(t, i)| vec![q.q(*t / s, QT), *i as i64]).collect();
                 let cints: Vec<Vec<i64>> = curve.ray_intersections(&ray).iter().map(|(t, i)| vec![q.q(*t / s, QT), *i as i64]).collect();
